@@ -168,6 +168,29 @@ def r_solverstate(A, ctx, scope, rule="R-SOLVERSTATE"):
                    what=f"{m.qualname} stores `{norm_src(bad)[:60] if bad else ''}` on the solver "
                         "object: a later solve with the same instance depends on this call",
                    loc=loc(m, bad) if bad else None)
+        # ... and __init__ keeps hyper-parameters only: nothing it stores is a freshly built mutable
+        # object (buffers, accelerators, lists) that the solves would then share
+        init = cls.methods.get("__init__")
+        if init is not None:
+            n += 1
+            bad = None
+            for st in ast.walk(init.node):
+                if isinstance(st, ast.Assign) and any(isinstance(t, ast.Attribute) and isinstance(t.value, ast.Name)
+                                                      and t.value.id == "self" for t in st.targets):
+                    v = st.value
+                    fresh = isinstance(v, (ast.List, ast.Dict, ast.Set, ast.ListComp, ast.DictComp))
+                    if isinstance(v, ast.Call):
+                        fn = ast.unparse(v.func)
+                        r = A.prog.resolve(init.module, fn.split(".")[0]) if "." not in fn else None
+                        fresh = fresh or fn in ("list", "dict", "set") or fn.startswith(("np.zeros", "np.empty", "np.ones", "np.full")) \
+                            or type(r).__name__ == "ClassInfo"
+                    if fresh:
+                        bad = st
+            ctx.ob(rule, f"{init.fq}::hyper-parameters-only", bad is None,
+                   what=(f"{init.qualname}: `{norm_src(bad)[:70]}` creates a mutable object once per solver: every "
+                         "solve() on this instance shares it, so what an earlier solve left in it (Anderson "
+                         "history of another problem, a cached buffer) enters the next one") if bad is not None else "",
+                   loc=loc(init, bad) if bad is not None else None)
     ctx.floor(rule, n, scope.get("floor", 25))
 
 
@@ -230,6 +253,7 @@ def r_solveformat(A, ctx, scope, rule="R-SOLVEFORMAT"):
         first = min(r.lineno for r in reads)
         where = None
         narrow = None
+        skipped = None
         for m in entry + [sf.cls.find_method("custom_checks")]:
             if m is None:
                 continue
@@ -238,17 +262,28 @@ def r_solveformat(A, ctx, scope, rule="R-SOLVEFORMAT"):
                 if _establishes_csc(st, mx):
                     where = m.qualname
                     narrow = narrow or _narrow_sparse_guard(st, mx)
-                # BaseSolver.solve: `if run_checks:` is the default path
+                # BaseSolver.solve: under `if run_checks:` a *refusal* counts (run_checks=False is the
+                # caller's promise that the input is valid); a *conversion* there does not - it is not
+                # a check, and solve(..., run_checks=False) would hand the unconverted matrix on
                 if isinstance(st, ast.If) and "run_checks" in ast.unparse(st.test):
-                    if any(_establishes_csc(s, mx) for s in st.body):
-                        where = m.qualname
+                    for s_ in st.body:
+                        if _establishes_csc(s_, mx):
+                            converts = any(isinstance(x, ast.Assign) for x in ast.walk(s_)) and not any(
+                                isinstance(x, ast.Raise) for x in ast.walk(s_))
+                            if converts:
+                                skipped = s_
+                            else:
+                                where = m.qualname
         for st in f.node.body:
             if st.lineno < first and _establishes_csc(st, xname):
                 where = f.qualname
         ctx.ob(rule, f"{f.fq}", where is not None,
                what=f"{sname}._solve reads `{xname}.indptr` / `{xname}.indices` as a CSC triple (first at line "
                     f"{first}) and nothing on the way from solve() converts a sparse `{xname}` to CSC or refuses "
-                    "other formats: solve(X_csr, ...) silently solves another problem (the rows are read as "
+                    "other formats"
+                    + (" on every call (the conversion sits under `if run_checks:`, so solve(..., "
+                       "run_checks=False) passes a CSR matrix on unconverted)" if skipped is not None else "")
+                    + ": solve(X_csr, ...) silently solves another problem (the rows are read as "
                     "columns) instead of raising or converting", loc=loc(f, reads[0]))
         if where is not None:
             # the guard of the conversion must cover what the solver's own dispatch calls sparse
